@@ -23,7 +23,8 @@ RULE = ("generated directories: 2..3 species (start .itp, end .gro, end .itp; en
         "interleaved instances, and distractors (foreign extensions, files of a species absent from the system, a "
         "start-only solvent topology, a species lacking its end coordinates, second valid candidates, the system file "
         "itself); plus the shipped BMIM/BF4 files. (cli) main() in-process with --mol / --auto / --exclude / --scale / "
-        "-o absolute, relative to another working directory, or defaulted, compared byte-for-byte with the library "
+        "-o absolute, relative to another working directory, or defaulted, the explicit triples and the --auto listing "
+        "spelled as absolute, relative, ./relative or non-normalised paths independently, compared byte-for-byte with the library "
         "workflow under the same numpy seed; (discovery) sort_molecules in fresh interpreters under PYTHONHASHSEED "
         "0,1,7,random (quick) / 0..5 and two random seeds (thorough) x 4..6 listing orders; (selection) main() with auto_map replaced by a recorder. "
         "Non-trivial = >=2 discoverable species and >=2 distractors. Distinct = sha1 of the case JSON.")
@@ -41,6 +42,25 @@ HASHSEEDS_QUICK = ["0", "1", "7", "random"]
 
 def hashseeds():
     return HASHSEEDS_THOROUGH if os.environ.get("VERIF_TIER_CURRENT") == "thorough" else HASHSEEDS_QUICK
+
+
+# how a path is written on the command line: the explicit triples and the --auto listing may name the same file differently
+SPELLINGS = ["abs", "abs", "rel", "dot", "nonnorm"]
+
+
+def spell(path, style, cwd):
+    if style == "rel":
+        return os.path.relpath(path, cwd)
+    if style == "dot":
+        return "." + os.sep + os.path.relpath(path, cwd)
+    if style == "nonnorm":
+        d = os.path.dirname(path)
+        return os.path.join(d, os.pardir, os.path.basename(d), os.path.basename(path))
+    return path
+
+
+def canon_path(path, cwd):
+    return os.path.realpath(path if os.path.isabs(path) else os.path.join(cwd, path))
 
 
 # ------------------------------------------------------------------ directory generator
@@ -82,11 +102,12 @@ def directory_case(draw):
             "scale": draw(st.sampled_from([0.5, 0.5, 1.0, 0.3, 0.77])),
             "outmode": draw(st.sampled_from(["default", "absolute", "relative", "relative-subdir"])),
             "mode": draw(st.sampled_from(["mol", "auto", "mixed"])),
-            "seed": draw(gen.SEEDS), "orders": draw(st.integers(4, 6))}
+            "seed": draw(gen.SEEDS), "orders": draw(st.integers(4, 6)),
+            "spelling": [draw(st.sampled_from(SPELLINGS)), draw(st.sampled_from(SPELLINGS))]}
 
 
 def build_directory(case):
-    d = env.fresh_dir()
+    d = os.path.realpath(env.fresh_dir())
     inputs = os.path.join(d, "inputs")
     os.makedirs(inputs)
     rng = np.random.default_rng(case["seed"])
@@ -223,9 +244,11 @@ def run_driver(jobs, hashseed):
 def check_discovery(case):
     D = build_directory(case)
     known_names = ["SP%d" % k for k in case["known"] if "SP%d" % k not in D["incomplete"]]
-    known = [D["triples"][nm] for nm in known_names]
+    sp_mol, sp_auto = case.get("spelling", ["abs", "abs"])
+    cwd = D["dir"]
+    known = [[spell(p, sp_mol, cwd) for p in D["triples"][nm]] for nm in known_names]
     orders = listing_orders(D["listing"], case["orders"], case["seed"])
-    jobs = [{"ref": D["system"], "files": o, "known": known} for o in orders]
+    jobs = [{"ref": D["system"], "files": [spell(p, sp_auto, cwd) for p in o], "known": known, "cwd": cwd} for o in orders]
     outcomes = {}
     key_orders = {}
     for hs in hashseeds():
@@ -253,7 +276,7 @@ def check_discovery(case):
     if not first["ok"]:
         raise PropertyViolation("discovery-error", "sort_molecules raised %s (distractors %r)"
                                 % (first["error"], case["distractors"]), cls="discovery-error:" + first["error"].split(":")[0])
-    result = first["result"]
+    result = {nm: {slot: canon_path(p, cwd) for slot, p in got.items()} for nm, got in first["result"].items()}
     discoverable = [nm for nm in D["triples"] if nm not in known_names]
     for nm in discoverable:
         got = result.get(nm, {})
@@ -278,7 +301,8 @@ def check_discovery(case):
             raise PropertyViolation("discovery-foreign", "a species absent from the candidates/system was discovered: %s" % nm)
     nt = len([nm for nm in discoverable if nm not in D["incomplete"]]) >= 2 and D["ndistractors"] >= 2
     return {"nontrivial": nt,
-            "classes": ["distractors:%d" % min(D["ndistractors"], 3), "known:%d" % len(known_names)] +
+            "classes": ["distractors:%d" % min(D["ndistractors"], 3), "known:%d" % len(known_names),
+                        "spelling:same" if sp_mol == sp_auto else "spelling:differs"] +
                        ["d:" + x for x in case["distractors"]],
             "sample": {"listing": [os.path.basename(p) for p in D["listing"]], "known": known_names,
                        "result": {k: {a: os.path.basename(b) for a, b in v.items()} for k, v in result.items()},
@@ -343,11 +367,14 @@ def check_cli(case):
         cwd = D["dir"]
         argv_ref = os.path.join("inputs", "system.gro")
         out_args, expect_out = ["--outfile", os.path.join("work", "res.gro")], os.path.join(workdir, "res.gro")
+    sp_mol, sp_auto = case.get("spelling", ["abs", "abs"])
+    if cwd is None and (sp_mol in ("rel", "dot") or sp_auto in ("rel", "dot")):
+        cwd = D["dir"]
     argv = [argv_ref]
     for nm in explicit:
-        argv += ["--mol"] + D["triples"][nm]
+        argv += ["--mol"] + [spell(p, sp_mol, cwd) for p in D["triples"][nm]]
     if auto:
-        argv += ["--auto"] + D["listing"]
+        argv += ["--auto"] + [spell(p, sp_auto, cwd) for p in D["listing"]]
         if exclude:
             argv += ["--exclude"] + exclude
     argv += ["--scale", repr(case["scale"])] + out_args
@@ -388,7 +415,7 @@ def check_cli(case):
                                     % (label, expect_out, [os.path.relpath(p, D["dir"]) for p in found]),
                                     cls="output-path:" + case["outmode"])
         ref_out = os.path.join(D["dir"], "library_out.gro")
-        species_abs = [[p if os.path.isabs(p) else os.path.join(D["dir"], p) for p in s] for s in species]
+        species_abs = [[canon_path(p, cwd or D["dir"]) for p in s] for s in species]
         lib("library-workflow", library_workflow, D["system"], species_abs, case["scale"], ref_out, seed)
         with open(expect_out, "rb") as f1, open(ref_out, "rb") as f2:
             a, b = f1.read(), f2.read()
@@ -402,7 +429,8 @@ def check_cli(case):
         _cli.auto_map = orig
         Alignment.STEPS_FACTOR = old_steps
     return {"nontrivial": len(species) >= 2 and D["ndistractors"] >= 2,
-            "classes": ["mode:" + mode, "out:" + case["outmode"], "scale:%s" % ("0.5" if case["scale"] == 0.5 else "other")],
+            "classes": ["mode:" + mode, "out:" + case["outmode"], "scale:%s" % ("0.5" if case["scale"] == 0.5 else "other"),
+                        "spelling:same" if sp_mol == sp_auto or not (explicit and auto) else "spelling:differs"],
             "sample": {"argv": [os.path.basename(a) if os.sep in a else a for a in argv], "species_mapped": len(species)}}
 
 
@@ -412,10 +440,12 @@ def check_selection(case):
     complete = [nm for nm in sorted(D["triples"]) if nm not in D["incomplete"]]
     explicit = [nm for nm in ("SP%d" % k for k in case["known"]) if nm in complete]
     exclude = ["SP%d" % k for k in case["exclude"]]
+    sp_mol, sp_auto = case.get("spelling", ["abs", "abs"])
+    cwd = D["dir"]
     argv = [D["system"]]
     for nm in explicit:
-        argv += ["--mol"] + D["triples"][nm]
-    argv += ["--auto"] + D["listing"]
+        argv += ["--mol"] + [spell(p, sp_mol, cwd) for p in D["triples"][nm]]
+    argv += ["--auto"] + [spell(p, sp_auto, cwd) for p in D["listing"]]
     if exclude:
         argv += ["--exclude"] + exclude
     argv += ["--scale", "0.25", "-o", os.path.join(D["dir"], "x.gro")]
@@ -424,7 +454,7 @@ def check_selection(case):
     _cli.auto_map = lambda ref, species, scale=0.5, outfile=None: calls.append((ref, [list(s) for s in species], scale, outfile))
     try:
         try:
-            run_main(argv, 1)
+            run_main(argv, 1, cwd)
         except BaseException as exc:      # noqa: BLE001
             raise PropertyViolation("cli-runs", "argument handling raised %s: %s (distractors %r)"
                                     % (type(exc).__name__, str(exc)[:300], case["distractors"]),
@@ -437,6 +467,7 @@ def check_selection(case):
     if ref != D["system"] or scale != 0.25 or outfile != os.path.join(D["dir"], "x.gro"):
         raise PropertyViolation("arguments-forwarded", "reference/scale/outfile reach the pipeline as %r %r %r"
                                 % (ref, scale, outfile))
+    species = [[canon_path(p, cwd) for p in s] for s in species]
     by_cg = {}
     for s in species:
         by_cg.setdefault(s[0], []).append(s)
@@ -464,7 +495,9 @@ def check_selection(case):
         raise PropertyViolation("auto-foreign", "species outside the complete ones are mapped: %r"
                                 % [[os.path.basename(p) for p in s] for s in extra])
     return {"nontrivial": len(complete) - len(explicit) >= 2 and D["ndistractors"] >= 2,
-            "classes": ["explicit:%d" % len(explicit), "exclude:%d" % len(exclude)] + ["d:" + x for x in case["distractors"]]}
+            "classes": ["explicit:%d" % len(explicit), "exclude:%d" % len(exclude),
+                        "spelling:same" if sp_mol == sp_auto or not explicit else "spelling:differs"] +
+                       ["d:" + x for x in case["distractors"]]}
 
 
 # ------------------------------------------------------------------ shipped BMIM/BF4 set
